@@ -195,7 +195,7 @@ Proof.
     destruct (c_eof (wc w5 cid) || _).
     + eapply IH; [exact H5|right; exact Ho5|exact E].
     + destruct (l_et (st w5) && _).
-      * apply I_post. eapply I_trigger; [|exact H5|exact E]. reflexivity.
+      * apply I_post. eapply I_trigger; [| |exact E]; [reflexivity|]. apply I_emit; [oign|exact H5].
       * inversion E; subst. apply I_post. exact H5.
   - (* Close *)
     pose proof (el_close_strong _ _ _ _ _ _ _ _ H4 E) as H5.
@@ -264,7 +264,7 @@ Proof.
   { destruct reply as [data|]; [|inversion E4; subst; exact H3].
     set (w3' := if c_udp (wc w3 cid) then w3 else _) in E4.
     assert (H3' : IINV (RI [] ex_none) w3').
-    { subst w3'. destruct (c_udp (wc w3 cid)); [exact H3|]. apply I_emit; [oign|]. apply I_emit; [oign|exact H3]. }
+    { subst w3'. destruct (c_udp (wc w3 cid)); [exact H3|]. apply I_emit; [oign|exact H3]. }
     assert (Hwc : wc w3' cid = wc w3 cid).
     { subst w3'. destruct (c_udp (wc w3 cid)); [reflexivity|]. rewrite !wc_ghost. reflexivity. }
     clearbody w3'.
@@ -278,14 +278,12 @@ Proof.
       + pose proof (open_loop_inv _ _ cid (S (List.length (inp w3'))) data w3' H3') as H5.
         rewrite E4 in H5. exact H5. }
   clear E4.
-  assert (H4' : IINV (RI [] ex_none) (ghost "openreply-end" cid [] w4)) by (apply I_emit; [oign|exact H4]).
-  set (w4e := ghost "openreply-end" cid [] w4) in *. clearbody w4e.
-  destruct (negb ok); [inversion E; subst; exact H4'|].
+  destruct (negb ok); [eapply (mb_close _ M); eauto|].
   match type of E with (let '(r5, w5) := ?X in _) = _ => destruct X as [r5 w5] eqn:E5 end.
   assert (H5 : IINV (RI [] ex_none) w5).
-  { destruct (c_out (wc w4e cid)); [inversion E5; subst; exact H4'|].
-    destruct (l_et (st w4e)); [inversion E5; subst; exact H4'|]. eapply I_epctl; eauto. }
-  destruct r5; try (inversion E; subst; exact H5).
+  { destruct (c_out (wc w4 cid)); [inversion E5; subst; exact H4|].
+    destruct (l_et (st w4)); [inversion E5; subst; exact H4|]. eapply I_epctl; eauto. }
+  destruct r5; [|eapply (mb_close _ M); [exact H5|exact E]..].
   destruct act; try (inversion E; subst; exact H5).
   eapply (mb_close _ M); eauto.
 Qed.
@@ -481,10 +479,11 @@ Lemma dispatch_inv : forall fuel fd ev w r w',
 Proof.
   intros fuel fd ev w r w' HI E. unfold dispatch in E.
   destruct (alookup fd (l_reg (st w))) as [cid|].
-  - eapply process_io_inv; eauto.
+  - destruct (polopt (st w) && c_udp (wc w cid)); [apply I_post; eapply el_read_udp_inv; eauto|].
+    eapply process_io_inv; eauto.
   - apply I_post. destruct (alookup fd (l_listeners (st w))) as [is_udp|].
     + eapply el_accept_inv; eauto.
-    + eapply I_epctl; eauto.
+    + destruct (polopt (st w)); [inversion E; subst; exact HI|]. eapply I_epctl; eauto.
 Qed.
 
 (* ------------------------------------------------------------------ *)
@@ -652,8 +651,11 @@ Lemma polling_inv : forall fuel w,
   IINV (RI [] ex_none) w -> IINV (RI [] ex_all) (polling fuel w).
 Proof.
   induction fuel as [|f IH]; intros w HI; [cbn; dsync|]. rewrite polling_eq. cbv zeta.
-  assert (H0 : IINV (RI [] ex_none) (emit ("g", [ASym "count"; AInt (zlen (l_reg (st w))); ABytes []]) w))
+  assert (H00 : IINV (RI [] ex_none) (emit ("g", [ASym "count"; AInt (zlen (l_reg (st w))); ABytes []]) w))
     by (apply I_emit; [oign|exact HI]).
+  set (wc0 := emit ("g", [ASym "count"; AInt (zlen (l_reg (st w))); ABytes []]) w) in *.
+  pose proof (Inv_pending_ign ustep in_step tt _ _ (l_reg (st wc0)) wc0 ltac:(intros; oign) H00) as H0.
+  unfold pending_fold in H0. clearbody wc0.
   destruct (pull _) as [[[name evs]|] w1] eqn:Ep.
   2:{ eapply I_ex_weaken; [|eapply I_pull; eauto]. intros; exact I. }
   pose proof (I_pull _ _ _ _ _ _ _ _ H0 Ep) as H1.
